@@ -268,6 +268,8 @@ def mean_method_rules(ctx, p, f_eq, fmax, power, nb):
             lin = sp.expand(T.to_term(sp.diff(t3.replace(lambda x: fname(x) == "store", lambda x: x.args[2]), LS))) if oks else None
             oks = oks and lin is not None and sp.simplify(lin - 1 / nb) == 0
             detail = T.show(sums[0], 200)
+        if not oks and not (oksel and len(sums) == 1 and V not in t2.free_symbols and fname(sums[0].args[0]) == "item"):
+            oks = None      # no window sum of a shape this rule knows was found (one sum of elements of the variable): not a verdict
         ctx.expect(oks, "R12.5", tag + f"[{nm}]",
                    f"{nm} is the mean over the `number_of_bins` bins that start at the window with the smallest criterion "
                    "(argmin over the criterion table + scan start), bins clipped to the grid", f_eq.loc(), derived=detail or T.show(t2, 200))
